@@ -371,4 +371,49 @@ theorem Atomic.one_commit_ts {T : TS} {p : Bytes} {s : Store} (ha : Atomic T p s
   have := hu w1 hw1 w2 hw2 (by rw [hT1, hT2])
   rw [← hC1, ← hC2, this]
 
+/-! ### what a commit answer says about the store (C03) -/
+
+/-- a commit request answered with an error changed nothing -/
+theorem commit_error_changes_nothing (s s' : Store) (keys : List Bytes) (T C : TS) (err : KErr)
+    (h : Mvcc.commit s keys T C = (s', some err)) : s'.kv = s.kv := by
+  simp only [Mvcc.commit] at h
+  cases hloop : commitLoop s keys T C [] with
+  | error er => rw [hloop] at h; injection h with h1 _; subst h1; rfl
+  | ok acts => rw [hloop] at h; injection h with _ h2; cases h2
+
+/-- a commit request answered with success: every requested key that carried the transaction's prewrite lock now has
+    the transaction's data record at the requested commit ts -/
+theorem commit_success_applied (s s' : Store) (keys : List Bytes) (T C : TS) (hs : SInv s) (hn : keys.Nodup) (hC : T < C)
+    (h : Mvcc.commit s keys T C = (s', none)) (k : Bytes) (hk : k ∈ keys) (l : Lock)
+    (hl : (getEntry s.kv k).lock = some l) (hT : l.startTS = T) (hop : l.op ≠ .pessimisticLock) :
+    HasData (getEntry s'.kv k) T C := by
+  have hkv : s'.kv ≠ s.kv ∨ True := Or.inr trivial
+  simp only [Mvcc.commit] at h
+  cases hloop : commitLoop s keys T C [] with
+  | error er => rw [hloop] at h; injection h with _ h2; cases h2
+  | ok acts =>
+    have h' : Mvcc.commit s keys T C = (s', none) := by simp only [Mvcc.commit, hloop]; rw [hloop] at h; exact h
+    rcases commit_primary_effect s s' keys T C none hs hn h' k hk l hl hT with hsame | heff
+    · -- the batch was applied; if the store is unchanged the lock would still be there, but the kernel removed it
+      rw [hloop] at h; injection h with h1 _
+      have ha := commitLoop_acts _ _ _ _ _ _ hloop
+      simp only [List.nil_append] at ha
+      have hk2 : getEntry s'.kv k = (commitLock l k T C).foldl entryAct (getEntry s.kv k) := by
+        rw [← h1]
+        show getEntry (applyBatch s.kv acts) k = _
+        rw [getEntry_applyBatch _ _ _ hs.1, ha, filter_flatMap_keys keys (commitKernel s T C) k hn (commitKey_keys s T C)]
+        simp only [hk, if_true]
+        obtain ⟨a, hka⟩ := commitLoop_ok_all _ _ _ _ _ _ hloop k hk
+        simp only [commitKernel, hka]
+        simp only [commitKey, filter_of_lock hl hT] at hka
+        split at hka
+        · cases hka
+        · injection hka with hka; rw [← hka]
+      rw [hk2]
+      exact (KStep.commit l k T C hl hT hC).commit_makes_data (fun l' hl' => by
+        rw [hl] at hl'; injection hl' with hl'; subst hl'; exact hop)
+    · rw [heff]
+      exact (KStep.commit l k T C hl hT hC).commit_makes_data (fun l' hl' => by
+        rw [hl] at hl'; injection hl' with hl'; subst hl'; exact hop)
+
 end CGV.Mvcc
